@@ -22,24 +22,30 @@ PROP = {'drive': ['Cmapx'], 'harness_files': ['area_cmapx.go'], 'modules': ['Sfn
                        'C09_generated_facts',
                        'C09_fmt12_orig_wrap',
                        'C09_fmt12_maxkey_refused',
-                       'C09_fmt6_orig_wrap'],
+                       'C09_fmt6_orig_wrap',
+                       'C09_macroman_injective',
+                       'C09_mac_decoders',
+                       'C09_mac_high_codes'],
  'areas': [('cmapx', 6000, 24000)],
  'rule': 'distinct case lines (map / subtable bytes / table entries, with the queried codes); non-trivial = '
          'a map with at least two entries, a mutated or crafted subtable, a table with at least two keys',
- 'partial': ['Macintosh platform (1,0) with a format 0 subtable: decodeFormat0 ignores code2rune, so Get(...).Lookup '
-             'answers in raw MacRoman codes while format 6/4 answer in Unicode (known finding C09-mac-format0, open; '
-             'C09_impl_eq_spec_0 is stated in code space where the decoder is correct; generator queries only '
-             'ASCII runes on that path)'],
+ 'partial': ['Macintosh key (1,0) with codes above 255 in a format 4 or 6 subtable (no such codes exist in MacRoman): '
+             'Table.Get converts with mac.DecodeOne(byte(code)), so such a code is written to the character of its '
+             'low byte over the codes below it; modelled and compared (stream cmapx.get key=1.0.0 with high codes), '
+             'recorded as C09_mac_high_codes, excluded from C09_mac_decoders by hypothesis (format 6: '
+             'firstCode+entryCount <= 256; format 4: the decoder wrote no code above 255)'],
  'modelled_not_verified': ['maps.Keys + sort.Slice (Format12.Encode, Table.Encode) are not modelled: the models '
                            'take the entries sorted by key (the result is unique because Go map keys are '
                            'distinct); the driver sorts the case line, byte-exact correspondence covers it',
                            'sort.Search in cmap.Decode is modelled by its specification on the sorted segment '
                            'list (first index with o <= start)',
-                           'MacRoman code2rune (platform 1) for format 6: table regenerated from mac/encoding.go, '
-                           'decoder modelled and compared (stream cmapx.dec6 mac=1, cmapx.get), no spec theorem in '
-                           'rune space',
-                           'decodeFormat4 inside Table.Get is a parameter of the Get/GetBest theorems (modelled '
-                           'and proved under C09 format 4); format 4 under MacRoman is not generated',
+                           'decodeFormat4 with code2rune = macRoman is modelled from the identity-mapping model of '
+                           'Model/Cmap4.lean (same checks, every write re-keyed to uint16(macRoman(idx)), dec4Of) and '
+                           'compared through Table.Get (stream cmapx.get key=1.0.0, D stream cmapx.macspec); the '
+                           'Get/GetBest no-panic theorems keep the format 4 decoder as a parameter',
+                           'the shape of mac.DecodeOne (identity below 128, dec[c-128] above) and of the closure in '
+                           'Table.Get (mac.DecodeOne(byte(code)), platform 1 / encoding 0, passed to every decoder) is '
+                           'checked textually by the extractor, not by a theorem',
                            'uint32 wrap of offsets in Table.Encode and of the length in Format12.Encode '
                            '(outputs of 4 GiB) is modelled (mod 2^32 / panic) but cannot be exercised'],
  'assumptions': ['Format12: a Go map uint32->glyph.ID is its list of entries sorted by key (Map32: keys strictly '
@@ -58,12 +64,14 @@ LEVEL = {'text': 'Proof (parts of C09 outside format 4): for every map uint32->g
          '(<= 65536 entries) and, like the models of the format 0 and format 6 decoders, agrees with the '
          'specification lookup on every byte string it accepts; cmap.Decode and Table.Get on decoded tables '
          'never panic (checked-index models), and GetBest returns the first decodable candidate of the '
-         'candidate list regenerated from cmap.go. Tied to the Go code by byte-exact/outcome-exact '
+         'candidate list regenerated from cmap.go; under a Macintosh key (1,0) the subtables of formats 0, 4 and 6 '
+         'decode to the specification lookup composed with the 256-entry MacRoman table regenerated from '
+         'mac/encoding.go (proved injective by kernel evaluation), for every rune. Tied to the Go code by byte-exact/outcome-exact '
          'correspondence on generated, crafted and mutated inputs and by evaluating the Lean specification on '
          'the bytes Go wrote / the maps Go decoded.',
  'note': 'Trusted: Lean kernel + 3 standard axioms; hand-written models mirror cmap/format12.go, format0.go, '
          'format6.go, cmap.go as checked by sampled correspondence; the specification lookups are my reading '
-         'of the OpenType cmap chapter. Four one-line repairs in /repo are modelled (see report).',
+         'of the OpenType cmap chapter. The repairs e802c48, 25d4922, d96ba23, 071a8c3, 0c896bc in /repo are modelled.',
  'technique': 'Lean 4 proofs about encoder/decoder models against executable specification decoders + '
               'differential correspondence'}
 READY = True
